@@ -1,6 +1,8 @@
 import NurbsVerif.Lemmas.InsertModel
 import NurbsVerif.Lemmas.InsertAll
 import NurbsVerif.Lemmas.InsertSurf
+import NurbsVerif.Lemmas.VolLiftInsert
+import NurbsVerif.Lemmas.VolLiftPoint
 import NurbsVerif.Model.Shape
 import Mathlib.Data.List.Perm.Basic
 
@@ -93,6 +95,208 @@ theorem insert_u_preserves_surface_point (pu pv : ℕ) (Uul : List K) (Uv : ℕ 
   insertU_preserves_surface_point pu pv Uul Uv su sv P ub u v r s k kv κ κ' d j hP hlenP hm hlen hk1 hk2 hmult hκ hκ'
     hr1 hrs hpk hksu hpκ hκsu hpv hkv hcase
 
+/-- **Volumes, u direction**: the net produced by the model of `operations.insert_knot` on a volume
+    (`mapVol 0`: every iso-curve `v = const, w = const` goes through A5.1 and is scattered back into the
+    layout `v + sv·(u + su·w)`) gives the same volume point as the original net, coordinate by
+    coordinate, for every degree triple, size triple, prior multiplicity `s`, count `r` with
+    `r + s ≤ pu`, and every evaluation parameter triple (on its spans before and after). -/
+theorem insert_u_preserves_volume_point (pu pv pw : ℕ) (Uul : List K) (Uv Uw : ℕ → K) (su sv sw : ℕ) (P : List (List K))
+    (ub u v w : K) (r s k kv kw κ κ' d j : ℕ) (hP : NetOk d P) (hlenP : P.length = su * sv * sw)
+    (hm : Monotone (fnOf Uul)) (hlen : k + 1 < Uul.length)
+    (hk1 : fnOf Uul k ≤ ub) (hk2 : ub < fnOf Uul (k+1))
+    (hmult : ∀ x, k - s < x → x ≤ k → fnOf Uul x = ub)
+    (hκ : fnOf Uul κ < fnOf Uul (κ+1))
+    (hκ' : fnOf (knotInsertionKv Uul ub k r) κ' < fnOf (knotInsertionKv Uul ub k r) (κ'+1))
+    (hr1 : 1 ≤ r) (hrs : r + s ≤ pu) (hpk : pu ≤ k) (hksu : k < su) (hpκ : pu ≤ κ) (hκsu : κ < su)
+    (hpv : pv ≤ kv) (hkv : kv < sv) (hpw : pw ≤ kw) (hkw : kw < sw)
+    (hcase : (κ' = κ ∧ κ ≤ k) ∨ (κ' = κ + r ∧ k ≤ κ)) :
+    (volumePointAt pu pv pw (fnOf (knotInsertionKv Uul ub k r)) Uv Uw (su + r) sv
+        (mapVol 0 su sv sw P (fun c => knotInsertion pu (fnOf Uul) c ub r s k)).1 κ' kv kw u v w).getD j 0
+      = (volumePointAt pu pv pw (fnOf Uul) Uv Uw su sv P κ kv kw u v w).getD j 0 :=
+  insertU_preserves_volume_point pu pv pw Uul Uv Uw su sv sw P ub u v w r s k kv kw κ κ' d j hP hlenP hm hlen
+    hk1 hk2 hmult hκ hκ' hr1 hrs hpk hksu hpκ hκsu hpv hkv hpw hkw hcase
+
+/-- **Volumes, v direction** (`mapVol 1`: every iso-curve `u = const, w = const` goes through A5.1). -/
+theorem insert_v_preserves_volume_point (pu pv pw : ℕ) (Uu : ℕ → K) (Uvl : List K) (Uw : ℕ → K) (su sv sw : ℕ) (P : List (List K))
+    (ub u v w : K) (r s k ku kw κ κ' d j : ℕ) (hP : NetOk d P) (hlenP : P.length = su * sv * sw)
+    (hm : Monotone (fnOf Uvl)) (hlen : k + 1 < Uvl.length)
+    (hk1 : fnOf Uvl k ≤ ub) (hk2 : ub < fnOf Uvl (k+1))
+    (hmult : ∀ x, k - s < x → x ≤ k → fnOf Uvl x = ub)
+    (hκ : fnOf Uvl κ < fnOf Uvl (κ+1))
+    (hκ' : fnOf (knotInsertionKv Uvl ub k r) κ' < fnOf (knotInsertionKv Uvl ub k r) (κ'+1))
+    (hr1 : 1 ≤ r) (hrs : r + s ≤ pv) (hpk : pv ≤ k) (hksv : k < sv) (hpκ : pv ≤ κ) (hκsv : κ < sv)
+    (hpu : pu ≤ ku) (hku : ku < su) (hpw : pw ≤ kw) (hkw : kw < sw)
+    (hcase : (κ' = κ ∧ κ ≤ k) ∨ (κ' = κ + r ∧ k ≤ κ)) :
+    (volumePointAt pu pv pw Uu (fnOf (knotInsertionKv Uvl ub k r)) Uw su (sv + r)
+        (mapVol 1 su sv sw P (fun c => knotInsertion pv (fnOf Uvl) c ub r s k)).1 ku κ' kw u v w).getD j 0
+      = (volumePointAt pu pv pw Uu (fnOf Uvl) Uw su sv P ku κ kw u v w).getD j 0 :=
+  insertV_preserves_volume_point pu pv pw Uu Uvl Uw su sv sw P ub u v w r s k ku kw κ κ' d j hP hlenP hm hlen
+    hk1 hk2 hmult hκ hκ' hr1 hrs hpk hksv hpκ hκsv hpu hku hpw hkw hcase
+
+/-- **Volumes, w direction** (`mapVol 2`: every iso-curve `u = const, v = const` goes through A5.1). -/
+theorem insert_w_preserves_volume_point (pu pv pw : ℕ) (Uu Uv : ℕ → K) (Uwl : List K) (su sv sw : ℕ) (P : List (List K))
+    (ub u v w : K) (r s k ku kv κ κ' d j : ℕ) (hP : NetOk d P) (hlenP : P.length = su * sv * sw)
+    (hm : Monotone (fnOf Uwl)) (hlen : k + 1 < Uwl.length)
+    (hk1 : fnOf Uwl k ≤ ub) (hk2 : ub < fnOf Uwl (k+1))
+    (hmult : ∀ x, k - s < x → x ≤ k → fnOf Uwl x = ub)
+    (hκ : fnOf Uwl κ < fnOf Uwl (κ+1))
+    (hκ' : fnOf (knotInsertionKv Uwl ub k r) κ' < fnOf (knotInsertionKv Uwl ub k r) (κ'+1))
+    (hr1 : 1 ≤ r) (hrs : r + s ≤ pw) (hpk : pw ≤ k) (hksw : k < sw) (hpκ : pw ≤ κ) (hκsw : κ < sw)
+    (hpu : pu ≤ ku) (hku : ku < su) (hpv : pv ≤ kv) (hkv : kv < sv)
+    (hcase : (κ' = κ ∧ κ ≤ k) ∨ (κ' = κ + r ∧ k ≤ κ)) :
+    (volumePointAt pu pv pw Uu Uv (fnOf (knotInsertionKv Uwl ub k r)) su sv
+        (mapVol 2 su sv sw P (fun c => knotInsertion pw (fnOf Uwl) c ub r s k)).1 ku kv κ' u v w).getD j 0
+      = (volumePointAt pu pv pw Uu Uv (fnOf Uwl) su sv P ku kv κ u v w).getD j 0 :=
+  insertW_preserves_volume_point pu pv pw Uu Uv Uwl su sv sw P ub u v w r s k ku kv κ κ' d j hP hlenP hm hlen
+    hk1 hk2 hmult hκ hκ' hr1 hrs hpk hksw hpκ hκsw hpu hku hpv hkv hcase
+
+/-- **Rational volumes, u direction**: the whole (homogeneous) point is unchanged – the weight
+    coordinate included – hence so is the point after the division by the weight (`project`). -/
+theorem insert_u_preserves_rational_volume_point (pu pv pw : ℕ) (Uul : List K) (Uv Uw : ℕ → K) (su sv sw : ℕ) (P : List (List K))
+    (ub u v w : K) (r s k kv kw κ κ' d : ℕ) (hP : NetOk d P) (hlenP : P.length = su * sv * sw)
+    (hm : Monotone (fnOf Uul)) (hlen : k + 1 < Uul.length)
+    (hk1 : fnOf Uul k ≤ ub) (hk2 : ub < fnOf Uul (k+1))
+    (hmult : ∀ x, k - s < x → x ≤ k → fnOf Uul x = ub)
+    (hκ : fnOf Uul κ < fnOf Uul (κ+1))
+    (hκ' : fnOf (knotInsertionKv Uul ub k r) κ' < fnOf (knotInsertionKv Uul ub k r) (κ'+1))
+    (hr1 : 1 ≤ r) (hrs : r + s ≤ pu) (hpk : pu ≤ k) (hksu : k < su) (hpκ : pu ≤ κ) (hκsu : κ < su)
+    (hpv : pv ≤ kv) (hkv : kv < sv) (hpw : pw ≤ kw) (hkw : kw < sw)
+    (hcase : (κ' = κ ∧ κ ≤ k) ∨ (κ' = κ + r ∧ k ≤ κ)) :
+    project (volumePointAt pu pv pw (fnOf (knotInsertionKv Uul ub k r)) Uv Uw (su + r) sv
+        (mapVol 0 su sv sw P (fun c => knotInsertion pu (fnOf Uul) c ub r s k)).1 κ' kv kw u v w)
+      = project (volumePointAt pu pv pw (fnOf Uul) Uv Uw su sv P κ kv kw u v w) :=
+  congrArg project (insertU_preserves_volume_point_eq pu pv pw Uul Uv Uw su sv sw P ub u v w r s k kv kw κ κ' d hP hlenP hm hlen
+    hk1 hk2 hmult hκ hκ' hr1 hrs hpk hksu hpκ hκsu hpv hkv hpw hkw hcase)
+
+/-- **Rational volumes, v direction.** -/
+theorem insert_v_preserves_rational_volume_point (pu pv pw : ℕ) (Uu : ℕ → K) (Uvl : List K) (Uw : ℕ → K) (su sv sw : ℕ) (P : List (List K))
+    (ub u v w : K) (r s k ku kw κ κ' d : ℕ) (hP : NetOk d P) (hlenP : P.length = su * sv * sw)
+    (hm : Monotone (fnOf Uvl)) (hlen : k + 1 < Uvl.length)
+    (hk1 : fnOf Uvl k ≤ ub) (hk2 : ub < fnOf Uvl (k+1))
+    (hmult : ∀ x, k - s < x → x ≤ k → fnOf Uvl x = ub)
+    (hκ : fnOf Uvl κ < fnOf Uvl (κ+1))
+    (hκ' : fnOf (knotInsertionKv Uvl ub k r) κ' < fnOf (knotInsertionKv Uvl ub k r) (κ'+1))
+    (hr1 : 1 ≤ r) (hrs : r + s ≤ pv) (hpk : pv ≤ k) (hksv : k < sv) (hpκ : pv ≤ κ) (hκsv : κ < sv)
+    (hpu : pu ≤ ku) (hku : ku < su) (hpw : pw ≤ kw) (hkw : kw < sw)
+    (hcase : (κ' = κ ∧ κ ≤ k) ∨ (κ' = κ + r ∧ k ≤ κ)) :
+    project (volumePointAt pu pv pw Uu (fnOf (knotInsertionKv Uvl ub k r)) Uw su (sv + r)
+        (mapVol 1 su sv sw P (fun c => knotInsertion pv (fnOf Uvl) c ub r s k)).1 ku κ' kw u v w)
+      = project (volumePointAt pu pv pw Uu (fnOf Uvl) Uw su sv P ku κ kw u v w) :=
+  congrArg project (insertV_preserves_volume_point_eq pu pv pw Uu Uvl Uw su sv sw P ub u v w r s k ku kw κ κ' d hP hlenP hm hlen
+    hk1 hk2 hmult hκ hκ' hr1 hrs hpk hksv hpκ hκsv hpu hku hpw hkw hcase)
+
+/-- **Rational volumes, w direction.** -/
+theorem insert_w_preserves_rational_volume_point (pu pv pw : ℕ) (Uu Uv : ℕ → K) (Uwl : List K) (su sv sw : ℕ) (P : List (List K))
+    (ub u v w : K) (r s k ku kv κ κ' d : ℕ) (hP : NetOk d P) (hlenP : P.length = su * sv * sw)
+    (hm : Monotone (fnOf Uwl)) (hlen : k + 1 < Uwl.length)
+    (hk1 : fnOf Uwl k ≤ ub) (hk2 : ub < fnOf Uwl (k+1))
+    (hmult : ∀ x, k - s < x → x ≤ k → fnOf Uwl x = ub)
+    (hκ : fnOf Uwl κ < fnOf Uwl (κ+1))
+    (hκ' : fnOf (knotInsertionKv Uwl ub k r) κ' < fnOf (knotInsertionKv Uwl ub k r) (κ'+1))
+    (hr1 : 1 ≤ r) (hrs : r + s ≤ pw) (hpk : pw ≤ k) (hksw : k < sw) (hpκ : pw ≤ κ) (hκsw : κ < sw)
+    (hpu : pu ≤ ku) (hku : ku < su) (hpv : pv ≤ kv) (hkv : kv < sv)
+    (hcase : (κ' = κ ∧ κ ≤ k) ∨ (κ' = κ + r ∧ k ≤ κ)) :
+    project (volumePointAt pu pv pw Uu Uv (fnOf (knotInsertionKv Uwl ub k r)) su sv
+        (mapVol 2 su sv sw P (fun c => knotInsertion pw (fnOf Uwl) c ub r s k)).1 ku kv κ' u v w)
+      = project (volumePointAt pu pv pw Uu Uv (fnOf Uwl) su sv P ku kv κ u v w) :=
+  congrArg project (insertW_preserves_volume_point_eq pu pv pw Uu Uv Uwl su sv sw P ub u v w r s k ku kv κ κ' d hP hlenP hm hlen
+    hk1 hk2 hmult hκ hκ' hr1 hrs hpk hksw hpκ hκsw hpu hku hpv hkv hcase)
+
+/-- **Volumes as functions of the parameters, u direction.**  With the spans the library's own linear
+    search finds before and after (in all three directions), for EVERY parameter triple of the domain
+    (ends included) and every coordinate, the volume point is unchanged by inserting `ub` `r` times
+    into the u knot vector. -/
+theorem insert_u_preserves_volume (pu pv pw : ℕ) (Uul : List K) (Uv Uw : ℕ → K) (su sv sw : ℕ) (P : List (List K))
+    (ub u v w : K) (r s d j : ℕ) (hP : NetOk d P) (hlenP : P.length = su * sv * sw)
+    (hm : Monotone (fnOf Uul)) (hlen : Uul.length = su + pu + 1) (hpn : pu + 1 ≤ su)
+    (hub1 : fnOf Uul pu ≤ ub) (hub2 : ub < fnOf Uul su)
+    (hmult : ∀ x, findSpanLinear pu (fnOf Uul) su ub - s < x → x ≤ findSpanLinear pu (fnOf Uul) su ub → fnOf Uul x = ub)
+    (hr1 : 1 ≤ r) (hrs : r + s ≤ pu)
+    (hlo : fnOf Uul pu ≤ u) (hhi : u ≤ fnOf Uul su) (hlast : fnOf Uul (su - 1) < fnOf Uul su)
+    (hmv : Monotone Uv) (hpnv : pv + 1 ≤ sv) (hlov : Uv pv ≤ v)
+    (hmw : Monotone Uw) (hpnw : pw + 1 ≤ sw) (hlow : Uw pw ≤ w) :
+    (volumePoint pu pv pw (fnOf (knotInsertionKv Uul ub (findSpanLinear pu (fnOf Uul) su ub) r)) Uv Uw (su + r) sv sw
+        (mapVol 0 su sv sw P (fun c => knotInsertion pu (fnOf Uul) c ub r s (findSpanLinear pu (fnOf Uul) su ub))).1 u v w).getD j 0
+      = (volumePoint pu pv pw (fnOf Uul) Uv Uw su sv sw P u v w).getD j 0 :=
+  insertU_preserves_volume pu pv pw Uul Uv Uw su sv sw P ub u v w r s d j hP hlenP hm hlen hpn hub1 hub2 hmult hr1 hrs
+    hlo hhi hlast hmv hpnv hlov hmw hpnw hlow
+
+/-- **Volumes as functions of the parameters, v direction.** -/
+theorem insert_v_preserves_volume (pu pv pw : ℕ) (Uu : ℕ → K) (Uvl : List K) (Uw : ℕ → K) (su sv sw : ℕ) (P : List (List K))
+    (ub u v w : K) (r s d j : ℕ) (hP : NetOk d P) (hlenP : P.length = su * sv * sw)
+    (hm : Monotone (fnOf Uvl)) (hlen : Uvl.length = sv + pv + 1) (hpn : pv + 1 ≤ sv)
+    (hub1 : fnOf Uvl pv ≤ ub) (hub2 : ub < fnOf Uvl sv)
+    (hmult : ∀ x, findSpanLinear pv (fnOf Uvl) sv ub - s < x → x ≤ findSpanLinear pv (fnOf Uvl) sv ub → fnOf Uvl x = ub)
+    (hr1 : 1 ≤ r) (hrs : r + s ≤ pv)
+    (hlo : fnOf Uvl pv ≤ v) (hhi : v ≤ fnOf Uvl sv) (hlast : fnOf Uvl (sv - 1) < fnOf Uvl sv)
+    (hmu : Monotone Uu) (hpnu : pu + 1 ≤ su) (hlou : Uu pu ≤ u)
+    (hmw : Monotone Uw) (hpnw : pw + 1 ≤ sw) (hlow : Uw pw ≤ w) :
+    (volumePoint pu pv pw Uu (fnOf (knotInsertionKv Uvl ub (findSpanLinear pv (fnOf Uvl) sv ub) r)) Uw su (sv + r) sw
+        (mapVol 1 su sv sw P (fun c => knotInsertion pv (fnOf Uvl) c ub r s (findSpanLinear pv (fnOf Uvl) sv ub))).1 u v w).getD j 0
+      = (volumePoint pu pv pw Uu (fnOf Uvl) Uw su sv sw P u v w).getD j 0 :=
+  insertV_preserves_volume pu pv pw Uu Uvl Uw su sv sw P ub u v w r s d j hP hlenP hm hlen hpn hub1 hub2 hmult hr1 hrs
+    hlo hhi hlast hmu hpnu hlou hmw hpnw hlow
+
+/-- **Volumes as functions of the parameters, w direction.** -/
+theorem insert_w_preserves_volume (pu pv pw : ℕ) (Uu Uv : ℕ → K) (Uwl : List K) (su sv sw : ℕ) (P : List (List K))
+    (ub u v w : K) (r s d j : ℕ) (hP : NetOk d P) (hlenP : P.length = su * sv * sw)
+    (hm : Monotone (fnOf Uwl)) (hlen : Uwl.length = sw + pw + 1) (hpn : pw + 1 ≤ sw)
+    (hub1 : fnOf Uwl pw ≤ ub) (hub2 : ub < fnOf Uwl sw)
+    (hmult : ∀ x, findSpanLinear pw (fnOf Uwl) sw ub - s < x → x ≤ findSpanLinear pw (fnOf Uwl) sw ub → fnOf Uwl x = ub)
+    (hr1 : 1 ≤ r) (hrs : r + s ≤ pw)
+    (hlo : fnOf Uwl pw ≤ w) (hhi : w ≤ fnOf Uwl sw) (hlast : fnOf Uwl (sw - 1) < fnOf Uwl sw)
+    (hmu : Monotone Uu) (hpnu : pu + 1 ≤ su) (hlou : Uu pu ≤ u)
+    (hmv : Monotone Uv) (hpnv : pv + 1 ≤ sv) (hlov : Uv pv ≤ v) :
+    (volumePoint pu pv pw Uu Uv (fnOf (knotInsertionKv Uwl ub (findSpanLinear pw (fnOf Uwl) sw ub) r)) su sv (sw + r)
+        (mapVol 2 su sv sw P (fun c => knotInsertion pw (fnOf Uwl) c ub r s (findSpanLinear pw (fnOf Uwl) sw ub))).1 u v w).getD j 0
+      = (volumePoint pu pv pw Uu Uv (fnOf Uwl) su sv sw P u v w).getD j 0 :=
+  insertW_preserves_volume pu pv pw Uu Uv Uwl su sv sw P ub u v w r s d j hP hlenP hm hlen hpn hub1 hub2 hmult hr1 hrs
+    hlo hhi hlast hmu hpnu hlou hmv hpnv hlov
+
+/-- The object-level model `Shape.mapDir` applied to a shape with three parametric directions is
+    `mapVol` on its sizes and net (so the three theorems above are about what `insertKnotDir` does
+    to a volume). -/
+theorem mapDir_volume (S : Shape K) (dir : ℕ) (f : List (List K) → List (List K)) (h : S.pdim = 3) :
+    S.mapDir dir f = mapVol dir (S.size 0) (S.size 1) (S.size 2) S.net f := by
+  unfold Shape.mapDir
+  rw [if_neg (by omega), if_neg (by omega)]
+
+/-- What one direction of the model of `operations.insert_knot` returns for a volume (three
+    parametric directions) when the multiplicity check passes: the knot vector of that direction with
+    `r` copies inserted at the span found by the linear search, the size reported by `mapVol`, and
+    the net `mapVol dir … (A5.1 on every iso-curve)` – the objects of the theorems above. -/
+theorem insertKnotDir_volume (S : Shape K) (dir : ℕ) (u : K) (r : ℕ) (tol : K) (check : Bool) (h3 : S.pdim = 3)
+    (hok : ¬ (check = true ∧ r + findMultiplicity u (S.kv dir) tol > S.deg dir)) :
+    insertKnotDir S dir u r tol check = some { S with
+      kvs := S.kvs.set dir (knotInsertionKv (S.kv dir) u (findSpanLinear (S.deg dir) (fnOf (S.kv dir)) (S.size dir) u) r),
+      sizes := S.sizes.set dir (mapVol dir (S.size 0) (S.size 1) (S.size 2) S.net (fun c =>
+        knotInsertion (S.deg dir) (fnOf (S.kv dir)) c u r (findMultiplicity u (S.kv dir) tol)
+          (findSpanLinear (S.deg dir) (fnOf (S.kv dir)) (S.size dir) u))).2,
+      net := (mapVol dir (S.size 0) (S.size 1) (S.size 2) S.net (fun c =>
+        knotInsertion (S.deg dir) (fnOf (S.kv dir)) c u r (findMultiplicity u (S.kv dir) tol)
+          (findSpanLinear (S.deg dir) (fnOf (S.kv dir)) (S.size dir) u))).1 } := by
+  unfold insertKnotDir
+  simp only []
+  rw [if_neg hok, mapDir_volume S dir _ h3]
+
+/-- The net grows in the chosen direction only: `su·sv·sw` becomes `(su+r)·sv·sw` (u), `su·(sv+r)·sw`
+    (v), `su·sv·(sw+r)` (w), the reported new size is `size + r`, and every point keeps its dimension. -/
+theorem insert_volume_net_size (su sv sw d r p : ℕ) (U : ℕ → K) (P : List (List K)) (ub : K) (s k : ℕ)
+    (hP : NetOk d P) (hlen : P.length = su * sv * sw) (hsu : 0 < su) (hsv : 0 < sv) (hsw : 0 < sw)
+    (hpk : p ≤ k) (hrs : r + s ≤ p) :
+    (k < su → (mapVol 0 su sv sw P (fun c => knotInsertion p U c ub r s k)).2 = su + r ∧
+      (mapVol 0 su sv sw P (fun c => knotInsertion p U c ub r s k)).1.length = (su + r) * sv * sw ∧
+      NetOk d (mapVol 0 su sv sw P (fun c => knotInsertion p U c ub r s k)).1) ∧
+    (k < sv → (mapVol 1 su sv sw P (fun c => knotInsertion p U c ub r s k)).2 = sv + r ∧
+      (mapVol 1 su sv sw P (fun c => knotInsertion p U c ub r s k)).1.length = su * (sv + r) * sw ∧
+      NetOk d (mapVol 1 su sv sw P (fun c => knotInsertion p U c ub r s k)).1) ∧
+    (k < sw → (mapVol 2 su sv sw P (fun c => knotInsertion p U c ub r s k)).2 = sw + r ∧
+      (mapVol 2 su sv sw P (fun c => knotInsertion p U c ub r s k)).1.length = su * sv * (sw + r) ∧
+      NetOk d (mapVol 2 su sv sw P (fun c => knotInsertion p U c ub r s k)).1) :=
+  ⟨fun hk => let h := mapVol0_insert_spec su sv sw d r p U P ub s k hP hlen hsv hsw hpk hk hrs; ⟨h.1, h.2.1, h.2.2.1⟩,
+   fun hk => let h := mapVol1_insert_spec su sv sw d r p U P ub s k hP hlen hsu hsw hpk hk hrs; ⟨h.1, h.2.1, h.2.2.1⟩,
+   fun hk => let h := mapVol2_insert_spec su sv sw d r p U P ub s k hP hlen hsu hsv hpk hk hrs; ⟨h.1, h.2.1, h.2.2.1⟩⟩
+
 /-- The knot vector gains exactly `r` entries … -/
 theorem insertKv_length (U : List K) (u : K) (k r : ℕ) : (knotInsertionKv U u k r).length = U.length + r := by
   unfold knotInsertionKv
@@ -150,5 +354,27 @@ example : ReqOk 2 (([0,0,0,1,1,1] : List ℚ), [[0,0],[1,2],[2,0]]) (1/2, 1, 0) 
   exfalso
   simp only [Nat.sub_zero] at h1
   exact absurd h2 (not_le.mpr h1)
+
+/-- non-vacuity of the volume theorems: degrees (1,1,2), sizes 2×2×3, w knots 0,0,0,1,1,1, insert 1/2 once
+    (span 2, multiplicity 0), evaluate at w = 3/4 (old span 2, new span 3) -/
+example (Uu Uv : ℕ → ℚ) (u v : ℚ) (j : ℕ) :
+    (volumePointAt 1 1 2 Uu Uv (fnOf (knotInsertionKv ([0,0,0,1,1,1] : List ℚ) (1/2) 2 1)) 2 2
+        (mapVol 2 2 2 3 ([[0,0],[1,0],[0,1],[1,1],[0,2],[1,3],[2,2],[3,1],[0,5],[1,4],[2,6],[4,4]] : List (List ℚ))
+          (fun c => knotInsertion 2 (fnOf ([0,0,0,1,1,1] : List ℚ)) c (1/2) 1 0 2)).1 1 1 3 u v (3/4)).getD j 0
+      = (volumePointAt 1 1 2 Uu Uv (fnOf ([0,0,0,1,1,1] : List ℚ)) 2 2
+          ([[0,0],[1,0],[0,1],[1,1],[0,2],[1,3],[2,2],[3,1],[0,5],[1,4],[2,6],[4,4]] : List (List ℚ)) 1 1 2 u v (3/4)).getD j 0 := by
+  apply insert_w_preserves_volume_point 1 1 2 Uu Uv [0,0,0,1,1,1] 2 2 3 _ (1/2) u v (3/4) 1 0 2 1 1 2 3 2 j
+  · intro pt hpt; simp at hpt; rcases hpt with h|h|h|h|h|h|h|h|h|h|h|h <;> simp [h]
+  · rfl
+  · apply monotone_nat_of_le_succ
+    intro n
+    rcases n with _|_|_|_|_|_|n <;> simp [fnOf, List.getD]
+  · simp
+  · simp [fnOf, List.getD]
+  · simp [fnOf, List.getD]; norm_num
+  · intro x h1 h2; omega
+  · simp [fnOf, List.getD]
+  · simp [fnOf, knotInsertionKv, List.getD]; norm_num
+  all_goals omega
 
 end C04
